@@ -19,6 +19,8 @@ import (
 	"context"
 	"sync"
 	"sync/atomic"
+
+	"github.com/B1NARY-GR0UP/originium/pkg/verifhook"
 )
 
 const _markCBufferSize = 100
@@ -106,6 +108,7 @@ func (w *WaterMark) process() {
 			close(w.markC)
 			return
 		case m := <-w.markC:
+			verifhook.Point("watermark.mark")
 			if m.waiter != nil {
 				// handle wait
 				if w.DoneUntil() >= m.ts {
